@@ -54,7 +54,15 @@ fn main() {
         .expect("Error setting SIGTERM handler");
     }
 
-    let cli = Cli::parse();
+    // clap rejects an invalid command line before `--output` can be read from the parsed arguments: honour a literal
+    // `--output json` / `--output=json` so that this failure, too, is reported as one JSON document
+    // (`--help` / `--version` are not failures and keep printing to stdout)
+    let cli = Cli::try_parse().unwrap_or_else(|e| {
+        if e.use_stderr() {
+            emit_json_error(argv_asks_for_json(), e.render().to_string().trim_end());
+        }
+        e.exit()
+    });
     let use_color = !cli.no_color && io::stdout().is_terminal();
     // Under `--output json` every failure below is also reported as one JSON document on stdout
     let json_output = wants_json(&cli.command);
@@ -473,6 +481,15 @@ fn wants_json(command: &Commands) -> bool {
             output: OutputFormat::Json,
         }
     )
+}
+
+/// The raw command line contains `--output json` or `--output=json` (used only when clap could not parse it)
+fn argv_asks_for_json() -> bool {
+    let args: Vec<String> = std::env::args().collect();
+    args.iter().any(|a| a == "--output=json")
+        || args
+            .windows(2)
+            .any(|w| w[0] == "--output" && w[1] == "json")
 }
 
 /// Machine-readable counterpart of an error message: with `--output json` a failing command still writes exactly one
